@@ -730,6 +730,16 @@ func runC06(r *Runner) string {
 		r.Do("sum.priv", []string{eccListStr(keys)}, tag, true, tag)
 	}
 	sumPriv(nil, "sumpriv-empty")
+	// partial sums that cancel: the result is a sum like any other (possibly zero), never a refusal
+	for i := 0; i < r.N(6, 40); i++ {
+		a := r.eccScalar(i)
+		na := eccB32(new(big.Int).Sub(eccN, new(big.Int).SetBytes(a)))
+		b := r.eccScalar(i + 1)
+		sumPriv([][]byte{a, na}, "sumpriv-cancelling")
+		sumPriv([][]byte{a, na, b}, "sumpriv-cancelling")
+		sumPriv([][]byte{b, a, na}, "sumpriv-cancelling")
+		sumPriv([][]byte{eccB32(big.NewInt(1)), eccB32(big.NewInt(1)), eccB32(new(big.Int).Sub(eccN, big.NewInt(2)))}, "sumpriv-cancelling")
+	}
 	for _, a := range eccEdgeScalars {
 		sumPriv([][]byte{a}, "sumpriv-edge")
 		for _, b := range eccEdgeScalars {
@@ -984,6 +994,7 @@ func runC05(r *Runner) string {
 
 	zero32 := make([]byte, 32)
 	degenerate := [][]byte{
+		{0x00}, // SEC 1's one-byte encoding of the point at infinity: not a public key
 		append([]byte{2}, zero32...), append([]byte{3}, zero32...),
 		append(append([]byte{4}, zero32...), zero32...), zero32,
 	}
